@@ -211,6 +211,19 @@ struct World<S: Service> {
 
 static NAME_COUNTER: AtomicU64 = AtomicU64::new(0);
 
+/// A finding that this worker process has already reported `WITNESSES_PER_WORKER` times ends
+/// further executions silently, so that the enumeration of all other histories goes on (the
+/// engine stops a worker after `max_violations_per_worker` reports).
+const WITNESSES_PER_WORKER: u32 = 12;
+
+fn seen_often(fail: &Fail) -> bool {
+    static SEEN: std::sync::Mutex<BTreeMap<String, u32>> = std::sync::Mutex::new(BTreeMap::new());
+    let mut seen = SEEN.lock().unwrap_or_else(|e| e.into_inner());
+    let n = seen.entry(format!("{}|{}", fail.tag, fail.site)).or_insert(0);
+    *n += 1;
+    *n > WITNESSES_PER_WORKER
+}
+
 /// The inter-process flavour leaves a root directory and the domain-wide management segment
 /// (persistent by design) per worker process; whoever runs next removes those of dead processes.
 fn remove_leftovers_of_dead_processes() {
@@ -432,11 +445,6 @@ impl<S: Service> World<S> {
         self.server(s)?.act.get(k as usize).ok_or_else(|| f("harness", "active-index", format!("no active {s}/{k}")))
     }
 
-    fn c08(&self, tag: &'static str) -> &'static str {
-        // limit oracles carry their own tag when the harness runs for C08
-        tag
-    }
-
     // ---- basic operations
     fn send_request(&mut self, c: u8, from_loan: bool) -> Result<bool, Fail> {
         let lim = self.lim();
@@ -600,9 +608,9 @@ impl<S: Service> World<S> {
                     ("request-unexpected", cls.to_string())
                 }
                 (Obs::Req(None), Some(Obs::Req(Some(_)))) => ("request-lost", "receive returned None although a deliverable request is queued".to_string()),
-                (Obs::ReqErrBorrows, Some(Obs::Req(Some(_)))) => (self.c08("request-receive-refused-within-limit"), "ExceedsMaxBorrows although a deliverable request of a client below the limit is queued".to_string()),
-                (Obs::ReqErrBorrows, Some(Obs::Req(None))) => (self.c08("request-receive-refused-within-limit"), "ExceedsMaxBorrows although nothing deliverable is queued".to_string()),
-                (Obs::Req(None), Some(Obs::ReqErrBorrows)) => (self.c08("active-request-limit-not-enforced"), "receive returned None instead of ExceedsMaxBorrows".to_string()),
+                (Obs::ReqErrBorrows, Some(Obs::Req(Some(_)))) => ("request-receive-refused-within-limit", "ExceedsMaxBorrows although a deliverable request of a client below the limit is queued".to_string()),
+                (Obs::ReqErrBorrows, Some(Obs::Req(None))) => ("request-receive-refused-within-limit", "ExceedsMaxBorrows although nothing deliverable is queued".to_string()),
+                (Obs::Req(None), Some(Obs::ReqErrBorrows)) => ("active-request-limit-not-enforced", "receive returned None instead of ExceedsMaxBorrows".to_string()),
                 _ => ("request-receive-mismatch", "other".to_string()),
             };
             return Err(f(tag, site, format!("server {s} (holding {holds} active requests, limit {} per client): real {real:?}, model allows {exp:?}", self.cfg.a)));
@@ -744,8 +752,8 @@ impl<S: Service> World<S> {
             let (tag, site): (&str, String) = match (&real, exp.first()) {
                 (Obs::Resp(Some((_, pid))), _) => ("response-unexpected", self.m().classify_unexpected_response(my_rid, *pid).to_string()),
                 (Obs::Resp(None), Some(Obs::Resp(Some(_)))) => ("response-lost", self.m().classify_lost_response(my_rid).to_string()),
-                (Obs::RespErrBorrows, Some(Obs::Resp(_))) => (self.c08("response-receive-refused-within-limit"), "ExceedsMaxBorrows below max_borrowed_responses_per_pending_response".to_string()),
-                (Obs::Resp(None), Some(Obs::RespErrBorrows)) => (self.c08("response-borrow-limit-not-enforced"), "receive returned None instead of ExceedsMaxBorrows".to_string()),
+                (Obs::RespErrBorrows, Some(Obs::Resp(_))) => ("response-receive-refused-within-limit", "ExceedsMaxBorrows below max_borrowed_responses_per_pending_response".to_string()),
+                (Obs::Resp(None), Some(Obs::RespErrBorrows)) => ("response-borrow-limit-not-enforced", "receive returned None instead of ExceedsMaxBorrows".to_string()),
                 _ => ("response-receive-mismatch", "other".to_string()),
             };
             return Err(f(tag, site, format!("pending response {c}/{k} of request {my_rid} (holding {held} responses, limit {}): real {real:?}, model allows {exp:?}", self.cfg.r)));
@@ -994,7 +1002,7 @@ impl<S: Service> World<S> {
             return Ok(());
         }
         match self.apply_judged(op) {
-            Err(fail) if !owned(self.prop, &fail.tag) => {
+            Err(fail) if !owned(self.prop, &fail.tag) || seen_often(&fail) => {
                 self.diverged = true;
                 Ok(())
             }
@@ -1343,7 +1351,10 @@ impl<S: Service> World<S> {
         let World { service, node, .. } = self;
         drop(service);
         drop(node);
-        r
+        match r {
+            Err(fail) if seen_often(&fail) => Ok(()),
+            r => r,
+        }
     }
 
     fn key(&self) -> u64 {
@@ -1406,7 +1417,7 @@ impl Harness for H {
     }
 
     fn rule(&self) -> String {
-        "every sequence (up to the tree depth) of send request / receive request / send response / receive response / release response / drop pending response / drop active request / set disconnect hint / create+drop client / create+drop server (C02, C08: plus loan probes; C08: plus saturation macro operations) on real request-response ports of a fresh service per execution, for a covering set of {1..2 clients x 1..2 servers, max_active_requests 1..3, response buffer 1..2, overflow on/off, fire-and-forget on/off, ports pre-created or dynamic}; a distinct state is a distinct canonical reference-model state (requests and responses renamed by rank); non-trivial = at least one request was sent".into()
+        "every sequence (up to the tree depth) of send request / receive request / send response / receive response / release response / drop pending response / drop active request / set disconnect hint / create+drop client / create+drop server (C02, C08: plus loan probes; C08: plus saturation macro operations) on real request-response ports of a fresh service per execution, for a covering set of {1..2 clients x 1..2 servers, max_active_requests 1..3, response buffer 1..2, overflow on/off, fire-and-forget on/off, ports pre-created or dynamic}; a distinct state is a distinct canonical reference-model state (requests and responses renamed by rank); non-trivial = at least one request was sent. An execution ends at the first observation the reference model cannot explain; an oracle that belongs to another property than the selected one, or a finding this worker has already reported 12 times, ends the execution without a report so that the enumeration of the other histories continues".into()
     }
 
     fn configs(&self, tier: Tier) -> Vec<(Cfg, Plan)> {
@@ -1493,10 +1504,10 @@ fn configs(tier: Tier) -> Vec<(Cfg, Plan)> {
         Prop::C08 => 2,
     };
     let mut v: Vec<(Cfg, Plan)> = Vec::new();
-    let mut add = |c: Cfg, quick_depth: usize, thorough_depth: usize, split: u32| {
+    let mut add = |c: Cfg, quick_depth: usize, thorough_depth: usize| {
         let d = depth_override(if quick { quick_depth } else { thorough_depth } - less);
-        let frontier = if quick { Some((600, 10)) } else { Some((6000, 12)) };
-        v.push((c, Plan { tree_depth: d, finish_prefixes: false, frontier, split: if quick { 1 } else { split } }));
+        let frontier = if quick { Some((400, 10)) } else { Some((3000, 12)) };
+        v.push((c, Plan { tree_depth: d, finish_prefixes: false, frontier, split: if quick { 1 } else { 2 } }));
     };
 
     // S11: one client, one server, both created up front, no port operations
@@ -1507,7 +1518,7 @@ fn configs(tier: Tier) -> Vec<(Cfg, Plan)> {
                 2 => (6, 8),
                 _ => (5, 7),
             };
-            add(row(a, r), qd, td, 4);
+            add(row(a, r), qd, td);
         }
     }
     // D11: ports come and go (at most one client and one server at a time)
@@ -1521,7 +1532,7 @@ fn configs(tier: Tier) -> Vec<(Cfg, Plan)> {
             c.init_servers = 0;
         }
         c.clients_first = i % 4 == 1;
-        add(c, if a == 1 { 6 } else { 5 }, if a == 1 { 8 } else { 7 }, 4);
+        add(c, if a == 1 { 6 } else { 5 }, if a == 1 { 8 } else { 7 });
     }
     // S21 / S12: two clients or two servers, static
     for (i, r) in OA8.iter().enumerate() {
@@ -1529,23 +1540,23 @@ fn configs(tier: Tier) -> Vec<(Cfg, Plan)> {
         let mut c = row(a, *r);
         c.max_clients = 2;
         c.init_clients = 2;
-        add(c, if a == 1 { 6 } else { 5 }, if a == 1 { 8 } else { 7 }, 4);
+        add(c, if a == 1 && i % 4 == 0 { 6 } else { 5 }, if a == 1 { 7 } else { 6 });
         let mut c = row(a, OA8[7 - i]);
         c.max_servers = 2;
         c.init_servers = 2;
         c.clients_first = i % 4 == 2;
-        add(c, if a == 1 { 6 } else { 5 }, if a == 1 { 8 } else { 7 }, 4);
+        add(c, if a == 1 && i % 4 == 2 { 6 } else { 5 }, if a == 1 { 7 } else { 6 });
     }
     // D21 / D12: the second client / server comes and goes
     for (i, r) in OA8.iter().enumerate().filter(|(i, _)| i % 2 == 0) {
         let mut c = row(1, *r);
         c.max_clients = 2;
         c.dynamic_clients = true;
-        add(c, 5, 7, 4);
+        add(c, 5, 7);
         let mut c = row(1, OA8[7 - i]);
         c.max_servers = 2;
         c.dynamic_servers = true;
-        add(c, 5, 7, 4);
+        add(c, 5, 7);
     }
     // S22 / D22
     for (i, r) in OA8.iter().enumerate().filter(|(i, _)| i % 2 == 1) {
@@ -1560,7 +1571,7 @@ fn configs(tier: Tier) -> Vec<(Cfg, Plan)> {
             c.init_clients = 1;
             c.init_servers = 1;
         }
-        add(c, 5, 6, 4);
+        add(c, 5, 6);
     }
     // disconnect hint, has_requests
     for (i, r) in [OA8[0], OA8[5], OA8[6]].into_iter().enumerate() {
@@ -1570,7 +1581,7 @@ fn configs(tier: Tier) -> Vec<(Cfg, Plan)> {
             c.max_clients = 2;
             c.init_clients = 2;
         }
-        add(c, 5, 7, 4);
+        add(c, 5, 7);
     }
     // loan and send as separate steps
     for (i, r) in [OA8[1], OA8[2], OA8[4], OA8[7]].into_iter().enumerate() {
@@ -1584,19 +1595,20 @@ fn configs(tier: Tier) -> Vec<(Cfg, Plan)> {
             c.dynamic_clients = true;
             c.dynamic_servers = true;
         }
-        add(c, 5, 7, 4);
+        add(c, 5, 7);
     }
     if !quick {
-        // the same shapes over the inter-process service flavour
+        // the same shapes over the inter-process service flavour (every fourth configuration)
         let locals: Vec<(Cfg, Plan)> = v.iter().filter(|(c, _)| c.a <= 2).cloned().collect();
+        // (an execution costs about a hundred times more than with the process-local flavour)
         for (i, (mut c, mut pl)) in locals.into_iter().enumerate() {
-            if i % 3 != 0 {
+            if i % 4 != 0 {
                 continue;
             }
             c.ipc = true;
-            pl.tree_depth = pl.tree_depth.saturating_sub(2).max(4);
-            pl.frontier = Some((1500, 10));
-            pl.split = 2;
+            pl.tree_depth = if c.max_clients + c.max_servers > 2 { 3 } else { 4 };
+            pl.frontier = Some((150, 8));
+            pl.split = 1;
             v.push((c, pl));
         }
         // default-sized expired-connection buffers
@@ -1604,7 +1616,7 @@ fn configs(tier: Tier) -> Vec<(Cfg, Plan)> {
         c.dynamic_clients = true;
         c.dynamic_servers = true;
         c.expired = 128;
-        v.push((c, Plan { tree_depth: 6, finish_prefixes: false, frontier: None, split: 4 }));
+        v.push((c, Plan { tree_depth: 6 - less.min(1), finish_prefixes: false, frontier: None, split: 2 }));
     }
     v
 }
